@@ -407,13 +407,16 @@ EQUIV = [
     ("f($xD) > y", "f(* as xD) > y", None),
     ("f(A, $xD)", "f(A, * as xD)", None),
     ("f(A)=cc", "f(A, #value=cc)", None),
+    # the two spellings of a generic capture stay the same thing when they carry the focus mark
+    ("f > $xD", "f(!* as xD)", "$x"),
+    ("f(A, !$xD)", "f(A, !* as xD)", "$x"),
     ("f(A) > g(B) > X", "f(A, g(B, !X))", "x"),
     ("f(a~g(k=1)) > X", "f(a ~ g( k = 1 )) > X", "x"),
     ("f(a=g(1, k=2))", "f(a = g(1,k=2))", None),
     ("(f() as r)=cc", "f(!#value as r, #value=cc)", "#value"),
     ("(f(A) as r)=cc", "f(A, !#value as r, #value=cc)", "#value"),
 ]
-FOCUS_FORMS = ["x", "x:@T", "x as y", "x:@T as y", "*", "#value", "$x", "x=1"]
+FOCUS_FORMS = ["x", "x:@T", "x as y", "x:@T as y", "*", "#value", "$x", "x=1", "* as x", "* as x:@T"]
 CONTEXT_FORMS = ["a", "a:@T", "a as z", "a=1", "$q", "#enter", "a, k", "h(j)", "#value", "!#value as z", "#value as z, a"]
 RESERVED = {"as"}
 
@@ -482,7 +485,7 @@ def u_equivalences(c):
             c.prove(f"{label}/focus-is-the-marked-variable", main is not None and nm == want and 1 in main.fields["tags"], note=f"{lhs!r}")
         elif fx == "#value":
             c.prove(f"{label}/focus-is-the-marked-variable", main is not None and nm == "#value" and 1 in main.fields["tags"], note=f"{lhs!r}")
-        elif fx in ("*", "$x"):
+        elif fx in ("*", "$x", "* as x", "* as x:@T"):
             c.prove(f"{label}/focus-is-the-marked-variable", main is not None and nm is None and 1 in main.fields["tags"], note=f"{lhs!r}")
 
 
